@@ -166,6 +166,17 @@ pub fn guarded<T, E: std::fmt::Debug>(f: impl FnOnce() -> Result<T, E>) -> Outco
     }
 }
 
+/// a constant of the contracts as regenerated by `tools/extract_constants.py` into
+/// `lean/WW/Gen/Constants.lean` (the same file the Lean model imports; compiled in, so a changed
+/// constant rebuilds the harness)
+pub fn gen_const(name: &str) -> u64 {
+    const SRC: &str = include_str!("../../lean/WW/Gen/Constants.lean");
+    let pat = format!("def {name} : Nat := ");
+    SRC.lines()
+        .find_map(|l| l.trim().strip_prefix(pat.as_str()).and_then(|v| v.trim().parse::<u64>().ok()))
+        .unwrap_or_else(|| panic!("constant {name} not found in lean/WW/Gen/Constants.lean"))
+}
+
 pub fn parse_u128s(ws: &[&str]) -> Option<Vec<u128>> {
     ws.iter().map(|w| w.parse::<u128>().ok()).collect()
 }
